@@ -77,6 +77,9 @@ CANDS = [{"addr": a} for a in ("127.0.0.1", "10.0.0.1", "8.8.8.8", "100.64.0.1",
 
 @scenario("block.client_connected", functions=[B + ".client_connected"], candidates=CANDS)
 def s_block(vc):
+    if vc.mode == "native":
+        import logging
+        logging.disable(logging.CRITICAL)      # the addon logs a warning per refused connection (native replays)
     addr = vc.sym_str("addr")
     zone = vc.sym_str("zone")
     has_zone = vc.case("has_zone", [False, True])
@@ -425,6 +428,15 @@ def _handle_client_run(peer, bp, bg):
 
 
 def bounded(tier, seed):
+    import logging
+    logging.disable(logging.CRITICAL)          # the addon logs one warning per refused connection
+    try:
+        return _bounded(tier, seed)
+    finally:
+        logging.disable(logging.NOTSET)
+
+
+def _bounded(tier, seed):
     import itertools
     b = Bounded()
     b.rule = ("boundary addresses (first-1, first, first+1, last-1, last, last+1) of every block of the IANA IPv4/IPv6 special-purpose registries "
